@@ -148,8 +148,9 @@ func NewChain(p MParams, names []string, bal map[string]int64) *Chain {
 	c.Ctx = app.BaseApp.NewContext(false, tmproto.Header{Height: c.Height, Time: realTime(c.Now)})
 	c.Handler = service.NewHandler(c.K)
 
-	arb := secs(p.RefundDelay / 2)
-	comp := secs(p.RefundDelay - p.RefundDelay/2)
+	// the two periods differ, so that a refund lock built from one of them twice is not the lock of both
+	arb := secs(p.RefundDelay / 3)
+	comp := secs(p.RefundDelay - p.RefundDelay/3)
 	c.K.SetParams(c.Ctx, types.NewParams(
 		p.MaxTimeout, p.Multiple, sdk.NewCoins(sdk.NewCoin(Denom, sdk.NewInt(p.MinDeposit))),
 		sdk.NewDecWithPrec(p.Tax, 3), sdk.NewDecWithPrec(p.Slash, 3), comp, arb, 4000, Denom,
